@@ -38,7 +38,7 @@
 //! | pattern | decided in | space |
 //! |---|---|---|
 //! | 1 text is bytes | the same oracles (`run_case`) on the universes `slot-texts*`: every text slot (package, class, nested class ×2, field, method, parameter names on both sides, class names in descriptors, comment lines of every kind of entry) = k ASCII letters + one character of 1/2/2/3/3/4 UTF-8 bytes (x, é, NO-BREAK SPACE, €, EM SPACE, U+1F600) at the first / second / last position | k = 0..=140, accepting (in-domain set) and refusing (file-name collision, parameter without name: the writer quotes the names) |
-//! | 1 … in error paths of the reader | `env::refusal_case`: no panic, no hang (text that is not the writer's: nothing else demanded) | 2526 slot texts × 62 texts: unknown keyword at every level, wrong number of columns, indices that are no numbers, indentation without parent, entries stated twice, invalid names / descriptors, misplaced entries, text that is no UTF-8, nothing to read, remark / modifier / CRLF / no final line break |
+//! | 1 … in error paths of the reader | `env::refusal_case`: no panic, no hang (text that is not the writer's: nothing else demanded) | 2526 slot texts × 59 texts: unknown keyword at every level, wrong number of columns, indices that are no numbers, indentation without parent, entries stated twice, invalid names / descriptors, misplaced entries, text that is no UTF-8, nothing to read, remark / modifier / CRLF / no final line break |
 //! | 2 the environment answers differently (streams) | `env::stream_env_case`: `read_into` through every scripted reader gives the set; `write_all` / `write_one` through every scripted writer deliver the bytes they deliver into a Vec; a writer failing after any prefix, a slice one byte too small ⇒ an error | 5 listed sets (every kind of entry with text outside ASCII, chains of 9 and 128, two texts > 8 KiB of multi-byte lines; thorough > 64 KiB) × the alphabet of c20/io.rs (chunk sizes, BufReader / BufWriter capacities, one boundary at every byte offset, periodic boundaries, Interrupted) |
 //! | 2 … (directory) / 4 state that is already there | `env::dir_env_case`: an error is accepted, success must be followed by reading back the set; a file behind which nothing can be stored (symbolic link to /dev/full) ⇒ success is an error swallowed; files of other kinds next to the mapping files: no panic | every in-domain set of the universe packages + the 5 listed sets × (target directory and its parent missing; every file in turn a link to /dev/full; every file in turn a directory; every first package component in turn a file; README.md, x.mapping.bak, .mapping, notes.txt, an empty directory empty.mapping; a path that does not exist) |
 //! | 4 / 7 a directory that already holds files of the same names and sizes | `dir-overwrite-same-size`: other facts of the same length (last letter of every member target name and comment replaced) written over the files of another insertion order: reading gives what was written last | every in-domain set with a comment or a member target name, without file-name collision |
@@ -2014,7 +2014,9 @@ fn main() {
 		let refused = total.get(&format!("refusals: {class}: refused"));
 		let read = total.get(&format!("refusals: {class}: read"));
 		ctx.floor(&format!("refusals: texts of the class '{class}' given to read_into"), 2_000, refused + read);
-		if !matches!(class, "nothing to read" | "remark and modifier columns") {
+		// descriptors are not validated by the Enigma reader (any column is taken for one; the statement is silent): their
+		// class had refusals only through the trailing-white-space defect repaired in /repo fe9ec3e
+		if !matches!(class, "nothing to read" | "remark and modifier columns" | "invalid descriptor") {
 			ctx.floor(&format!("refusals: texts of the class '{class}' refused (the error path ran)"), 1, refused);
 		}
 	}
